@@ -2,6 +2,7 @@
 from __future__ import annotations
 
 import asyncio
+import posixpath
 import random
 import sys
 from pathlib import Path
@@ -57,10 +58,10 @@ def prefixes(p: str):
 # reference: the registry without its valid_paths cache, invalidation = the whole subtree on that location
 # ------------------------------------------------------------------------------------------------
 class RObj:
-    __slots__ = ("loc", "path", "valid")
+    __slots__ = ("loc", "path", "valid", "relpath")
 
-    def __init__(self, loc, path):
-        self.loc, self.path, self.valid = loc, path, True
+    def __init__(self, loc, path, relpath=None):
+        self.loc, self.path, self.valid, self.relpath = loc, path, True, relpath if relpath is not None else path
 
 
 class Ref:
@@ -75,13 +76,18 @@ class Ref:
         ents.append(obj)
         return True
 
-    def register(self, loc, path):
-        obj = RObj(loc, path)
+    def register(self, loc, path, relpath=None):
+        rel = relpath or path
+        obj = RObj(loc, path, rel)
         for q in reversed(prefixes(path)):
             self.nodes.setdefault(q, {})
+        # a parent directory's relpath is the matching tail of the registered relpath, else its own name
+        cur = rel
         for q in reversed(prefixes(path)):
-            if not self._put(q, obj if q == path else RObj(loc, q)):
+            o = obj if q == path else RObj(loc, q, cur if cur and q.endswith(cur) else posixpath.basename(q))
+            if not self._put(q, o):
                 break
+            cur = posixpath.dirname(cur)
         return obj
 
     def relate(self, src, dst):
@@ -101,6 +107,9 @@ class Ref:
 
     def get(self, path, loc):
         return sorted(o.path for o in self.nodes.get(path, {}).get(loc, []) if o.valid)
+
+    def get_rel(self, path, loc):
+        return sorted((o.path, o.relpath) for o in self.nodes.get(path, {}).get(loc, []) if o.valid)
 
 
 def gen_history(rng: random.Random, nloc: int, depth: int, nops: int, wrapped: bool = False):
@@ -125,7 +134,9 @@ def gen_history(rng: random.Random, nloc: int, depth: int, nops: int, wrapped: b
                 rloc += [2, 0]
                 nreg += 2
                 continue
-            ops.append(("reg", l, p))
+            comps = p.strip("/").split("/")
+            rel = rng.choice([None, None, comps[-1], "/".join(comps[-2:]), "/".join(comps[-3:]), "/".join(comps), "zz/" + comps[-1]])
+            ops.append(("reg", l, p) if rel is None else ("reg", l, p, rel))
             rloc.append(ops[-1][1])
             nreg += 1
         elif r < 0.65:
@@ -301,9 +312,10 @@ class C21(Property):
         nontriv, seen_inv = False, False
         for i, op in enumerate(ops):
             if op[0] == "reg":
-                _, l, p = op
-                regs.append(dm.register_path(locs[l], p))
-                rregs.append(ref.register(l, p))
+                _, l, p = op[:3]
+                rel = op[3] if len(op) > 3 else None
+                regs.append(dm.register_path(locs[l], p, relpath=rel))
+                rregs.append(ref.register(l, p, rel))
                 universe.update(prefixes(p))
                 res, rres = "ok", "ok"
                 lines.append(f"reg {l} {pp(p)}")
@@ -370,17 +382,45 @@ class C21(Property):
                     meta.append((ops, i, f"get_data_locations({q!r}, d{l})"))
                     if real != want:
                         diffs.append((q, l, real, want))
+                    else:
+                        rel_real = sorted((o.path, o.relpath) for o in dm.get_data_locations(q, deployment=f"d{l}", location_name="loc"))
+                        if rel_real != ref.get_rel(q, l) and len(set(x for x, _ in rel_real)) == len(rel_real):
+                            self._fail(ctx, "registry:relpath-differs",
+                                       f"after {ops[: i + 1]}: get_data_locations({q!r}, d{l}) has (path, relpath) {rel_real}, expected "
+                                       f"{ref.get_rel(q, l)}", {"ops": ops[: i + 1], "nloc": nloc})
+                    # the data_type filter, against the unfiltered answer
+                    allv = dm.get_data_locations(q, deployment=f"d{l}", location_name="loc")
+                    for dt in (DataType.PRIMARY, DataType.SYMBOLIC_LINK, DataType.INVALID):
+                        typed = dm.get_data_locations(q, deployment=f"d{l}", location_name="loc", data_type=dt)
+                        if sorted(map(id, typed)) != sorted(id(v) for v in allv if v.data_type == dt):
+                            self._fail(ctx, "registry:data-type-filter",
+                                       f"after {ops[: i + 1]}: get_data_locations({q!r}, d{l}, data_type={dt.name}) returns "
+                                       f"{[(v.path, v.data_type.name) for v in typed]}, the unfiltered answer holds "
+                                       f"{[(v.path, v.data_type.name) for v in allv]}", {"ops": ops[: i + 1], "nloc": nloc})
             # the source location chosen for a transfer is a valid primary copy of that path
+            hung = False
             for q in sorted(universe)[:6]:
+                if hung:
+                    break
                 for l in range(nloc):
-                    src = _LOOP.run_until_complete(dm.get_source_location(q, f"d{l}"))
+                    try:
+                        src = _LOOP.run_until_complete(asyncio.wait_for(dm.get_source_location(q, f"d{l}"), 5))
+                    except asyncio.TimeoutError:
+                        self._fail(ctx, "registry:source-location-hangs",
+                                   f"after {ops[: i + 1]}: get_source_location({q!r}, d{l}) does not return although no transfer is "
+                                   f"in flight (a registered location never becomes available)", {"ops": ops[: i + 1], "nloc": nloc})
+                        hung = True
+                        self._hangs = getattr(self, "_hangs", 0) + 1
+                        break
                     ctx.count("get_source_location:" + ("none" if src is None else "some"))
-                    valid = dm.get_data_locations(q, data_type=DataType.PRIMARY)
+                    valid = [v for v in dm.get_data_locations(q) if v.data_type == DataType.PRIMARY]     # not through the typed query
                     if (src is None) != (not valid) or (src is not None and (src.data_type != DataType.PRIMARY or not any(src is v for v in valid))):
                         self._fail(ctx, "registry:source-location-not-a-valid-primary",
                                    f"after {ops[: i + 1]}: get_source_location({q!r}, d{l}) = "
                                    f"{None if src is None else (src.deployment, src.path, src.data_type.name)}, valid primaries "
                                    f"{[(v.deployment, v.path) for v in valid]}", {"ops": ops[: i + 1], "nloc": nloc})
+            if hung:
+                break
             if diffs:
                 has_rel = any(o[0] in ("rel", "wreg") for o in ops[: i + 1])
                 stale = []
@@ -496,13 +536,18 @@ class C21(Property):
                     _, pth, l = op
                     dep = f"d{l}"
                     at_call = dm.get_data_locations(path=pth, data_type=DataType.PRIMARY)
+                    independent = [v for v in dm.get_data_locations(path=pth) if v.data_type == DataType.PRIMARY]
+                    if sorted(map(id, at_call)) != sorted(map(id, independent)):
+                        out["fails"].append(("registry:data-type-filter",
+                                             f"get_data_locations({pth!r}, data_type=PRIMARY) = {[(v.deployment, v.path) for v in at_call]}, "
+                                             f"the unfiltered answer has the primaries {[(v.deployment, v.path) for v in independent]}"))
                     same = list({loc for loc in at_call if loc.deployment == dep})            # the iteration orders of the code's sets
                     local = list({loc for loc in at_call if loc.location.local})
                     sync(at_call, what)
                     fmt = lambda xs: ",".join(str(idx(x)) for x in xs) or "~"     # noqa: E731
                     emit(f"fask {fmt(same)} {fmt(local)} {fmt(at_call)}", "ok", what)
                     k = len(tasks)
-                    tasks.append(asyncio.create_task(ask(k, pth, dep, list(at_call))))
+                    tasks.append(asyncio.create_task(ask(k, pth, dep, list(independent))))
                     out["asked"] += 1
                     await tick(what)
                     if k not in results:
@@ -528,9 +573,10 @@ class C21(Property):
             out["lost"] = sum(1 for dl in flights if dl.data_type != DataType.PRIMARY)
 
         try:
-            run_controlled(drive, seed=seed, timeout=60)
+            run_controlled(drive, seed=seed, timeout=10)
         except TimeoutError:
-            out["fails"].append(("registry:source-location-hangs", "the history did not finish in 60 s"))
+            out["fails"].append(("registry:source-location-hangs", "the history did not finish in 10 s"))
+            self._hangs = getattr(self, "_hangs", 0) + 1
         for key, detail in out["fails"]:
             self._fail(ctx, key, f"in-flight history {ops}: {detail}", replay)
         lines += out["lines"]
@@ -544,27 +590,32 @@ class C21(Property):
     def explore(self, ctx: Ctx) -> None:
         rng = ctx.rng
         self._per_key = {}
+        self._hangs = 0
         lines, expect, meta = [], [], []
         for j, h in enumerate(FLIGHT_CORPUS):
+            if self._hangs >= 3:
+                break
             self._flight(ctx, h, j, lines, expect, meta, "flight:corpus")
             ctx.corpus_replayed += 1
         nf = 300 if ctx.tier == "quick" else 3000
         if ctx.mode == "search":
             nf *= 3
         for k in range(nf):
-            if ctx.out_of_time():
+            if ctx.out_of_time() or self._hangs >= 3:
                 break
             self._flight(ctx, gen_flight(rng), ctx.seed * 100003 + k, lines, expect, meta, "flight:random")
         for ops in CORPUS:
+            if self._hangs >= 3:
+                break
             self._run(ctx, ops, 3 if any(o[0] == "wreg" for o in ops) else 2, lines, expect, meta, "corpus")
             ctx.corpus_replayed += 1
         n = 400 if ctx.tier == "quick" else 5000
         if ctx.mode == "search":
             n *= 3
         for k in range(n):
-            if ctx.out_of_time():
+            if ctx.out_of_time() or self._hangs >= 3:
                 ctx.extra["histories_run"] = k
-                if k < 100:
+                if k < 100 and self._hangs < 3:
                     ctx.extra["incomplete"] = True
                 break
             nloc = rng.randint(1, 3)
